@@ -64,10 +64,12 @@ void harness(void) {
         varintBitmapFree(d);
     }
     VP_ASSUME(cut >= 1 && cut <= written);
+#ifndef VP_KF_EXCLUDE_C14_BITMAP_DECODE_TRUSTS_INPUT /* every strict prefix lies in the finding's region */
     varintBitmap *t = varintBitmapDecode(enc, written - cut);
     VP_ASSERT("P:bitmap.valid_truncated_rejected", t == 0);
     if (t)
         varintBitmapFree(t);
+#endif
     varintBitmapFree(vb);
     VP_ASSERT("P:bitmap.valid_no_leak", vp_live == 0);
 #else
@@ -91,13 +93,49 @@ void harness(void) {
     VP_ASSUME(in[5] <= CLAIM_MAX && in[6] == 0 && in[7] == 0 && in[8] == 0);
 #endif
 #endif
+    /* Region predicate of the (optional) known finding
+     * C14_BITMAP_DECODE_TRUSTS_INPUT: "the input is shorter than the
+     * serialisation it announces" (header 5 bytes; ARRAY 5 + 2*cardinality;
+     * BITMAP 5 + VARINT_BITMAP_BITMAP_SIZE; RUNS 9 + 4*numRuns; an unknown
+     * type announces only the header). */
+    int kf_short = 1;
+#if L >= 5
+    {
+        uint64_t c = (uint64_t)in[1] | ((uint64_t)in[2] << 8) | ((uint64_t)in[3] << 16) | ((uint64_t)in[4] << 24);
+#if TYPE == 0
+        kf_short = 5 + 2 * c > L;
+#elif TYPE == 1
+        (void)c;
+        kf_short = 5 + (uint64_t)VARINT_BITMAP_BITMAP_SIZE > L;
+#elif TYPE == 2 && L >= 9
+        uint64_t r = (uint64_t)in[5] | ((uint64_t)in[6] << 8) | ((uint64_t)in[7] << 16) | ((uint64_t)in[8] << 24);
+        (void)c;
+        kf_short = 9 + 4 * r > L;
+#elif TYPE == 2
+        (void)c;
+#else
+        (void)c;
+        kf_short = 0;
+#endif
+    }
+#endif
+#if defined(VP_KF_ONLY_C14_BITMAP_DECODE_TRUSTS_INPUT)
+    VP_ASSUME(kf_short);
+#endif
     uint8_t *buf = vp_exact(L);
     for (int i = 0; i < L; i++)
         buf[i] = in[i];
 #if L > 0 && TYPE < 3
     buf[0] = TYPE; /* same value as in[0]; a literal lets symex fold the switch */
 #endif
-    varintBitmap *vb = varintBitmapDecode(buf, L);
+    varintBitmap *vb = 0;
+#if defined(VP_KF_EXCLUDE_C14_BITMAP_DECODE_TRUSTS_INPUT)
+    /* = VP_ASSUME(!kf_short), written as a guard so that queries lying wholly
+     * inside the region still reach VP_REACH instead of becoming vacuous */
+    if (!kf_short)
+#endif
+        vb = varintBitmapDecode(buf, L);
+    (void)kf_short;
     if (vb) {
         uint32_t sink = 0;
         if (vb->type == VARINT_BITMAP_ARRAY) {
@@ -115,9 +153,8 @@ void harness(void) {
                 sink ^= vb->container.bitmap.bits[VARINT_BITMAP_BITMAP_SIZE - 1];
         }
         (void)sink;
-#if TYPE != 1 || defined(VARINT_VERIF_BITMAP_MAX_VALUE)
-        (void)varintBitmapContains(vb, probe % VARINT_BITMAP_MAX_VALUE);
-#endif
+        if (TYPE != 1 || VARINT_BITMAP_BITMAP_SIZE <= VP_ALLOC_SURROGATE) /* not through the surrogate */
+            (void)varintBitmapContains(vb, probe % VARINT_BITMAP_MAX_VALUE);
         varintBitmapFree(vb);
     }
     VP_ASSERT("P:bitmap.no_leak", vp_live == 0);
